@@ -335,6 +335,10 @@ fn exec_world(env: &Env, w: &World) -> Result<Vec<HostLog>, HarnessError> {
 
 fn run_world(env: &Env, idx: usize, ws: u64, corpus: &corpus::Corpus, po: &PlanOpts, want_sample: bool) -> WorldOutcome {
     let w = plan_world(ws, corpus, po);
+    run_planned_world(env, idx, ws, w, want_sample)
+}
+
+fn run_planned_world(env: &Env, idx: usize, ws: u64, w: World, want_sample: bool) -> WorldOutcome {
     let mut st = Stats::default();
     st.sim_clock_min_ns = i64::MAX;
     st.sim_clock_max_ns = i64::MIN;
@@ -427,6 +431,7 @@ fn run_world(env: &Env, idx: usize, ws: u64, corpus: &corpus::Corpus, po: &PlanO
         }
         st.distinct_fault_vectors.insert(fnv64(format!("{:?}|{}|{}|{}|{}|{:?}|{:?}|{:?}|{:?}|{:?}|{:?}|{}", h.env, h.entropy_seed, h.clock_epoch_ns, h.clock_step_ns, h.pid, h.cwd, h.argv, h.hostname, h.uid, h.ncpu, h.fs_map, h.warm_disk).as_bytes()));
 
+        let host_hist_hash = events_hash(&h.events);
         // position of each observation in the host's history, counting expansions only
         let mut n_before = 0usize;
         for o in &log.obs {
@@ -472,7 +477,7 @@ fn run_world(env: &Env, idx: usize, ws: u64, corpus: &corpus::Corpus, po: &PlanO
                     let sensitive = order_sensitive(r) || o.probes.iter().any(|p| p.len >= 2);
                     if sensitive && vec_sig != 0 {
                         let ih = fnv64(w.texts[o.input as usize].1.as_bytes());
-                        st.nontrivial.push(ih ^ (vec_sig as u64).wrapping_mul(0x9E37_79B9_7F4A_7C15) ^ fnv64(format!("{}|{}", h.entropy_seed, events_hash(&h.events)).as_bytes()).rotate_left(7));
+                        st.nontrivial.push(ih ^ (vec_sig as u64).wrapping_mul(0x9E37_79B9_7F4A_7C15) ^ fnv64(format!("{}|{}", h.entropy_seed, host_hist_hash).as_bytes()).rotate_left(7));
                     }
                 }
             }
@@ -519,7 +524,7 @@ fn world_seed(master: u64, idx: usize) -> u64 {
 
 fn plan_opts(cfg: &Cfg, env: &Env, feedback: &[String], fs_feedback: &[String]) -> PlanOpts {
     let hooked_available = env.host_bin(Backend::Syn1, Build::Hooked).is_some() && env.host_bin(Backend::Syn2, Build::Hooked).is_some();
-    PlanOpts { backend: cfg.backend, build: cfg.build, hooked_available, feedback: feedback.to_vec(), fs_feedback: fs_feedback.to_vec(), cwds: vec!["/".into(), "/tmp".into(), cfg.build_dir.to_string_lossy().into_owned(), cfg.repo.to_string_lossy().into_owned()], max_inputs: if cfg.tier == "thorough" { 32 } else { 20 } }
+    PlanOpts { backend: cfg.backend, build: cfg.build, hooked_available, feedback: feedback.to_vec(), fs_feedback: fs_feedback.to_vec(), cwds: vec!["/".into(), "/tmp".into(), cfg.build_dir.to_string_lossy().into_owned(), cfg.repo.to_string_lossy().into_owned()], max_inputs: if cfg.tier == "thorough" { 32 } else { 20 }, ultra_index: None }
 }
 
 fn run_batch(env: &Env, cfg: &Cfg, corpus: &corpus::Corpus, po: &PlanOpts, indices: &[usize], jobs: usize) -> Vec<WorldOutcome> {
@@ -799,6 +804,30 @@ fn cmd_run(cfg: &Cfg) -> i32 {
     let batch = 64usize;
     let mut done = 0usize;
     let mut capped = false;
+    // the ultra-marathon world(s) (65536+ expansions in one process) run beside the batches
+    let n_ultra = if std::env::var("SIM_NO_ULTRA").is_ok() { 0 } else if cfg.tier == "thorough" { 4 } else { 1 };
+    let ultra_out: Mutex<Vec<WorldOutcome>> = Mutex::new(Vec::new());
+    std::thread::scope(|scope| {
+    for u in 0..n_ultra {
+        let (env, corpus, ultra_out) = (&env, &corpus, &ultra_out);
+        let mut po = plan_opts(cfg, env, &[], &[]);
+        scope.spawn(move || {
+            plan::SLOT.with(|x| x.set(900 + u));
+            let idx = 1_000_000 + u;
+            let ws = world_seed(cfg.seed, idx);
+            if po.backend.is_none() {
+                po.backend = Some(if u % 2 == 0 { Backend::Syn1 } else { Backend::Syn2 });
+            }
+            let w = plan::plan_ultra_world(ws, corpus, &po, env);
+            if std::env::var("SIM_DUMP_ULTRA").is_ok() {
+                for t in &w.texts {
+                    eprintln!("--- ultra input {}\n{}", t.0, t.1);
+                }
+            }
+            let o = run_planned_world(env, idx, ws, w, false);
+            ultra_out.lock().unwrap().push(o);
+        });
+    }
     while done < cfg.worlds {
         if t0.elapsed().as_secs() > cfg.wall_cap_s {
             capped = true;
@@ -833,6 +862,20 @@ fn cmd_run(cfg: &Cfg) -> i32 {
         if divergences.len() >= 24 {
             break;
         }
+    }
+    });
+    let mut ultra = ultra_out.into_inner().unwrap();
+    ultra.sort_by_key(|o| o.idx);
+    let mut ultra_expansions = 0u64;
+    for o in ultra {
+        if let Some(e) = o.harness_error {
+            harness_errors.push(e);
+        }
+        if let (Some((d, control)), Some(w)) = (o.divergence, o.world) {
+            divergences.push((o.idx, o.seed, d, control, w));
+        }
+        ultra_expansions += o.stats.expansions;
+        total.merge(o.stats);
     }
     let worlds_done = done;
 
@@ -888,7 +931,10 @@ fn cmd_run(cfg: &Cfg) -> i32 {
     for (idx, ws, d, control, w) in divergences.into_iter().take(6) {
         let mw = minimise::MiniWorld { backend: w.backend, build: w.build, texts: w.texts.clone(), reference: w.hosts[0].clone(), bad: w.hosts[d.host.min(w.hosts.len() - 1)].clone() };
         let item = w.items.get(d.input as usize).cloned();
-        let budget = if cfg.tier == "thorough" { 400 } else { 160 };
+        // a 65k-expansion history costs ~15 s per judgement and cannot shrink much anyway (the
+        // distance between the two expansions *is* the fault): confirm it, reset what can be reset
+        let long = w.hosts.iter().any(|h| h.events.len() > 5000);
+        let budget = if long { 6 } else if cfg.tier == "thorough" { 400 } else { 160 };
         let m = match minimise::minimise(&env, mw, item, d, budget) {
             Ok(m) => m,
             Err(e) => {
@@ -995,7 +1041,7 @@ fn cmd_run(cfg: &Cfg) -> i32 {
             "inputs_per_class": total.per_class_inputs, "reference_verdicts": total.verdicts,
             "max_o2o_diagnostics_in_one_input": total.max_errors_in_one_input, "max_impls_in_one_input": total.max_impls_in_one_input,
             "input_shape_probes": {"note": "how many of the reference observations' inputs have each shape (a probe stuck at 0 is a blind spot of the workload)", "hits": total.shape_probes},
-            "corpus": {"items": corpus.items.len(), "files": corpus.files, "from_o2o_tests": corpus.from_tests_dir, "from_unit_tests": corpus.from_unit_tests, "from_readme_and_doc_comments": corpus.from_docs},
+            "corpus": {"items": corpus.items.len(), "files": corpus.files, "from_o2o_tests": corpus.from_tests_dir, "from_unit_tests": corpus.from_unit_tests, "from_readme_and_doc_comments": corpus.from_docs, "source_dictionary_env_names": corpus.dict_env, "source_dictionary_argv": corpus.dict_argv},
             "faults": {
                 "enabled_in_worlds": total.fault_enabled_worlds,
                 "fired_on_hosts": total.fault_fired_hosts,
@@ -1004,7 +1050,7 @@ fn cmd_run(cfg: &Cfg) -> i32 {
                 "distinct_history_prefix_lengths": total.prefix_lengths.len(),
                 "heap_perturbation_events": total.perturb_events,
                 "order_policy_events": total.order_policy_events,
-                "marathon_hosts_ge250_expansions": total.marathon_hosts, "longest_history_expansions": total.longest_history,
+                "ultra_marathon_worlds_65536_plus_expansions_in_one_process": n_ultra, "expansions_in_ultra_marathons": ultra_expansions, "marathon_hosts_ge250_expansions": total.marathon_hosts, "longest_history_expansions": total.longest_history,
                 "entropy_requests_served_by_shim": total.getrandom_calls, "entropy_bytes_served": total.getrandom_bytes,
             },
             "reads_of_seams_during_expansions": {
